@@ -82,4 +82,11 @@ Section Entry.
         end
     | _ => Err OtherError
     end.
+
+  (* pydrex.diagnostics.elasticity_components for one matrix: M(36) Ed(9) Ev(9) *)
+  Definition run_decomp (xs : list F) : res (list F) :=
+    if Nat.eqb (length xs) 54 then
+      let '(m, r) := take 36 xs in let '(ed, ev) := take 9 r in
+      elasticity_components1 (aol m) (aol ed) (aol ev)
+    else Err OtherError.
 End Entry.
